@@ -13,7 +13,7 @@ import (
 )
 
 func init() {
-	p := register("C16", c16Tpl, c16Unique, c16UniqueOrder, c16Probe, c16Cache, c16Collect, c16Err, c16Descend)
+	p := register("C16", c16Tpl, c16Unique, c16UniqueOrder, c16Probe, c16Cache, c16Collect, c16Err, c16Descend, c16FirstOcc)
 	p.SkipRoot = true
 }
 
